@@ -25,8 +25,15 @@ def _hook():
     from . import prims
 
     sim = prims.CURRENT[0]
-    if sim is not None and sim.monitor_on and sim.cur is not None:
-        sim.line_event()
+    if sim is not None and sim.cur is not None:
+        if sim.monitor_on:
+            sim.line_event()
+        else:
+            # not a scheduling point in this run, but still a budget: a busy loop without any yield point must end
+            # as a "stepcap" verdict, not as a worker that has to be killed
+            sim.free_statements += 1
+            if sim.free_statements > sim.free_statement_cap and not sim.aborting:
+                sim._end_run(("stepcap", f"{sim.free_statements} statements executed"), sim.cur)
     return None
 
 
